@@ -74,7 +74,7 @@ def parse_unit(path):
                 continue
             if block is not None and block[0] == "raw" and not d.split()[0] in (
                     "unit", "prelude", "specs", "from", "take", "stub", "contract", "loop", "hint", "replace", "raw",
-                    "obligation", "canary", "derive_eq", "include", "desugar_enumerate", "mut_self", "block", "replace_macro", "verify_only"):
+                    "obligation", "canary", "derive_eq", "include", "desugar_enumerate", "mut_self", "block", "replace_macro", "verify_only", "inline_bytestr", "name_wildcards"):
                 continue
             block = None
             cur_label = None
@@ -158,6 +158,10 @@ def parse_unit(path):
                 u.desugar = getattr(u, "desugar", []) + [(w[1], int(w[2]))]
             elif w[0] == "mut_self":
                 u.mut_self = getattr(u, "mut_self", []) + [w[1]]
+            elif w[0] == "inline_bytestr":
+                u.inline_bytestr = getattr(u, "inline_bytestr", []) + [w[1]]
+            elif w[0] == "name_wildcards":
+                u.name_wildcards = getattr(u, "name_wildcards", []) + [w[1]]
             elif w[0] == "derive_eq":
                 u.derive_eq = getattr(u, "derive_eq", []) + w[1:]
             else:
@@ -521,6 +525,76 @@ def _find_tail_continue(toks, bo, bc):
     return None
 
 
+def _decode_bytestr(body, where):
+    """bytes of a Rust byte-string literal body (the text between the quotes)"""
+    out = []
+    i = 0
+    simple = {"\\": 92, "n": 10, "r": 13, "t": 9, "0": 0, '"': 34, "'": 39}
+    while i < len(body):
+        ch = body[i]
+        if ch != "\\":
+            if ord(ch) > 127:
+                raise BuildError("R9-bytestr: non-ASCII character in byte string literal (%s)" % where)
+            out.append(ord(ch))
+            i += 1
+            continue
+        nx = body[i + 1]
+        if nx in simple:
+            out.append(simple[nx])
+            i += 2
+        elif nx == "x":
+            out.append(int(body[i + 2:i + 4], 16))
+            i += 4
+        elif nx == "\n":
+            i += 2
+            while i < len(body) and body[i] in " \t\n\r":
+                i += 1
+        else:
+            raise BuildError("R9-bytestr: unknown escape \\%s (%s)" % (nx, where))
+    return out
+
+
+def _inline_bytestr(plain, fnkey, rules, consts):
+    """R9-inline (directive `inline_bytestr FNKEY`): byte-string literals used inline in a function body.
+         X.strip_prefix(b"LIT")   ->  strip_prefix_lit(X, BS_<hex>)      (X an identifier; shim with ASSUMED contract in the prelude)
+         &b"LIT"[..]              ->  BS_<hex>                           (the same `&'static [u8]` value)
+       where `BS_<hex>` is a constant generated by rule R9-bytestr from the literal of the real source (bytes decoded on
+       every run, literal kept verbatim as the unverified body).  `consts` collects name -> definition text."""
+    def const_for(lit, body):
+        data = _decode_bytestr(body, fnkey)
+        name = "BS_" + ("".join("%02x" % b for b in data) if data else "EMPTY")
+        if name not in consts:
+            # whole-sequence equality (short literals): every exec read of the constant then yields the same spec value
+            seqlit = ("seq![%s]" % ", ".join("%du8" % b for b in data)) if data else "Seq::<u8>::empty()"
+            ens = ["%s@.len() == %d" % (name, len(data)), "%s@ == %s" % (name, seqlit)]
+            consts[name] = ("#[verifier::external_body]\npub exec const %s: &'static [u8]\n    ensures\n        %s,\n{ %s }\n"
+                            % (name, ",\n        ".join(ens), lit))
+        return name
+    n = [0]
+
+    def sp(m):
+        n[0] += 1
+        return "strip_prefix_lit(%s, %s)" % (m.group(1), const_for(m.group(2), m.group(3)))
+    plain = re.sub(r"""(\b\w+)\s*\.\s*strip_prefix\(\s*(b"((?:[^"\\]|\\.)*)")\s*\)""", sp, plain)
+
+    def full(m):
+        n[0] += 1
+        return const_for(m.group(1), m.group(2))
+    plain = re.sub(r"""&\s*(b"((?:[^"\\]|\\.)*)")\s*\[\s*\.\.\s*\]""", full, plain)
+    if n[0]:
+        rules.append("R9-inline %d byte-string literal(s) -> generated constants / strip_prefix_lit" % n[0])
+    return plain
+
+
+def _name_wildcards(plain, rules):
+    """R6-wildcard (directive `name_wildcards FNKEY`): a closure parameter `_` gets a name (`|_|` -> `|_w|`); Verus accepts
+    only variables as closure parameters.  The parameter stays unused."""
+    new, k = re.subn(r"\|\s*_\s*\|", "|_w|", plain)
+    if k:
+        rules.append("R6-wildcard %d closure parameter(s) `_` named `_w`" % k)
+    return new
+
+
 def _bytestr_const(plain, name, rules):
     """R9-bytestr: `const X: &[u8] = b"...";`  ->  `#[verifier::external_body] exec const X: &'static [u8]
     ensures X@.len() == N, X@[0] == b0, ... { b"..." }`.  Verus has no value semantics for byte-string literals, so the
@@ -748,6 +822,11 @@ def transform_fn(u, fnkey, text, em, meta, is_trait_impl=False, nested=False, st
             plain = _replace_macro(plain, mr["macro"], mr["new"], mr["rule"], rules)
     if not os.environ.get("VERIF_NO_R8"):
         plain = _continue_to_else(plain, rules)
+    bs_consts = {}
+    if fnkey in getattr(u, "inline_bytestr", []):
+        plain = _inline_bytestr(plain, fnkey, rules, bs_consts)
+    if fnkey in getattr(u, "name_wildcards", []):
+        plain = _name_wildcards(plain, rules)
     if fnkey in getattr(u, "mut_self", []):
         plain = _mut_self(plain, rules)
     # placeholders @iN@ / @xN@ in injected text = the index / element variable names of the N-th desugared enumerate loop
@@ -892,6 +971,12 @@ def transform_fn(u, fnkey, text, em, meta, is_trait_impl=False, nested=False, st
             pos = p
             segs.append(("LINES", lines, deflabel))
     segs.append((None, plain[pos:]))
+    done = getattr(u, "_bs_emitted", set())
+    for cname, ctext in sorted(bs_consts.items()):
+        if cname not in done:
+            em.emit(ctext)
+            done.add(cname)
+    u._bs_emitted = done
     start = em.cur()
     if stub:
         em.emit("#[verifier::external_body]")
